@@ -82,6 +82,44 @@ Definition enc_reads (r : option (hstream * list (list N))) : val :=
   | None => VL [VN 10]
   end.
 
+(* a consumer that reads with successive sizes ns until an empty chunk comes back (fobj_md5 is
+   the special case of a constant size); DriveFuel = the size list ran out before the end *)
+Fixpoint drive_seq (d2u : bool) (ns : list Z) (s : hstream) (acc : list (list N)) : drive_res :=
+  match ns with
+  | [] => DriveFuel
+  | n :: r =>
+      match stream_read d2u s n with
+      | None => DriveAssert
+      | Some (data, s') =>
+          if is_nil data then DriveOk s' (rev acc) else drive_seq d2u r s' (data :: acc)
+      end
+  end.
+
+(* _hash_file's last two branches for a local file without a cached checksum:
+     if name in algorithms_available: file_md5(...)   (membership is exact-case)
+     raise NotImplementedError
+   avail = hashlib.algorithms_available | {"blake3", "md5-dos2unix"} as observed by the harness;
+   file_md5 = fobj_md5 with the default chunk size 2**20 on a file object without short reads *)
+Definition name_available (avail : list (list N)) (name : list N) : bool :=
+  existsb (list_N_eqb name) avail.
+Definition DEFAULT_READ : Z := 1048576%Z.
+Inductive hash_file_res := HfOk (name : list N) (r : drive_res) | HfNotImplemented.
+Definition hash_file (avail : list (list N)) (name content : list N) : hash_file_res :=
+  if name_available avail name then HfOk name (fobj_md5 name DEFAULT_READ content [])
+  else HfNotImplemented.
+
+(* what the harness observes of one run: algorithm that digests, class picked, outcome *)
+Definition enc_sel (name : list N) : val :=
+  VL [VB (hasher_alg name); enc_bool (picks_dos2unix name)].
+Definition enc_hash_file (r : hash_file_res) : val :=
+  match r with
+  | HfOk name d => VL [VN 0; VB name; enc_sel name; enc_drive d]
+  | HfNotImplemented => VL [VN 13]
+  end.
+
+(* the digest: the hasher is abstract (hashlib contract: hexdigest = H (everything fed)) *)
+Definition digest (H : list N -> list N) (s : hstream) : list N := H (hs_hasher s).
+
 (* unix2dos: every LF becomes CR LF (the "CRLF variant" of a text) *)
 Definition unix2dos (u : list N) : list N :=
   flat_map (fun c => if N.eqb c 10 then [13; 10] else [c]) u.
